@@ -26,7 +26,7 @@ func Struct(structName string, schema []*sch.SchemaElement) string {
 func getStruct(parent *sch.SchemaElement, children []*sch.SchemaElement) (int, string) {
 	str := fmt.Sprintf(`type %s struct {
 	%%s
-}`, strings.Title(parent.Name))
+}`, goName(parent.Name))
 	var i, j int
 	var fields string
 	for i < int(*parent.NumChildren) {
@@ -43,8 +43,19 @@ func getStruct(parent *sch.SchemaElement, children []*sch.SchemaElement) (int, s
 	return i + j, fmt.Sprintf(str, fields)
 }
 
+// goName turns the name of a column or group into an exported go
+// identifier (a name such as _id would otherwise give a field that
+// is not exported and is therefore left out of the generated code).
+func goName(name string) string {
+	n := strings.Title(strings.TrimLeft(name, "_"))
+	if n == "" {
+		n = "X" + name
+	}
+	return n
+}
+
 func field(elem *sch.SchemaElement) string {
-	n := strings.Title(elem.Name)
+	n := goName(elem.Name)
 	t := n
 	if elem.Type != nil {
 		t = getType(elem.Type.String())
